@@ -220,7 +220,9 @@ func (x *xfer) start() {
 		ep := ep
 		w.sim.spawnClient("accept."+ep.name, ep.name, func() {
 			for {
+				call := w.beginCall(ep, "accept", -1)
 				s, err := ep.assoc.AcceptStream()
+				w.endCall(call, err)
 				if err != nil {
 					ep.acceptEOF = true
 					w.apiEvent(ep, "accept", fmt.Sprintf("err=%v", err))
